@@ -111,11 +111,17 @@ def main(tier):
         behs = emit_behaviours(chk, 3)
         n4 = 0
         if tier == "thorough":
-            import random
-            b4 = emit_behaviours(chk, 4)
-            n4 = len(b4)
-            behs += random.Random(chk.seed).sample(b4, min(len(b4), 300000))    # a seeded sample of the 4-action behaviours
-            del b4
+            # behaviours of 4 actions: there are millions (holding them all once cost 16 GB and the OOM killer the run);
+            # TLC's simulator draws a seeded sample of them instead
+            b4 = emit_behaviours(chk, 4, simulate=300000, maxgens=1)
+            seen4 = set()
+            for b in b4:
+                key = json.dumps(b["hist"], sort_keys=True)
+                if key not in seen4:
+                    seen4.add(key)
+                    behs.append(b)
+            n4 = len(seen4)
+            del b4, seen4
         sims = emit_behaviours(chk, 12, simulate=1500 if tier == "quick" else 30000, maxgens=2)
         allb = behs + sims
         nproc = tlc.NCPU
@@ -144,7 +150,7 @@ def main(tier):
         chk.cov["exhaustive"] = True
         chk.cov["rule"] = ("all behaviours of 3 program actions (exhaustive)%s + %d simulated behaviours of 12 actions; non-trivial = "
                            "programs containing a raise, a rejected call or a generator resumption"
-                           % ((", a seeded sample of 300000 of the %d behaviours of 4 actions" % n4) if n4 else "", len(sims)))
+                           % ((", %d distinct simulated behaviours of 4 actions" % n4) if n4 else "", len(sims)))
         chk.sample({"program": allb[len(allb) // 2]["hist"], "expected_obs": allb[len(allb) // 2]["obs"]})
         chk.sample({"program": sims[0]["hist"], "expected_obs": sims[0]["obs"]})
         chk.part("replay", exhaustive_behaviours=len(behs), simulated=len(sims), traces_validated_by_tlc=nvalid)
